@@ -111,14 +111,13 @@ def shortestDistanceList [OfNat W 0] (net : Net W) (order : List Nat) (s : Nat) 
     List (Option W) :=
   order.map (runForward net s none cut).1.d
 
-/-- the `{(source, node): distance}` dictionary -/
-abbrev Table (W : Type) := List ((Nat × Nat) × W)
+/-- the `{(source, node): distance}` dictionary, as a finite map (absent key = `none`) -/
+abbrev Table (W : Type) := Nat × Nat → Option W
 
-def Table.set (tb : Table W) (k : Nat × Nat) (v : W) : Table W :=
-  if tb.any (fun p => p.1 == k) then tb.map (fun p => if p.1 == k then (k, v) else p) else tb ++ [(k, v)]
+def Table.empty : Table W := fun _ => none
 
-def Table.get? (tb : Table W) (k : Nat × Nat) : Option W :=
-  (tb.find? (fun p => p.1 == k)).map (·.2)
+/-- `d[k] = v` -/
+def Table.set (tb : Table W) (k : Nat × Nat) (v : W) : Table W := fun k' => if k' = k then some v else tb k'
 
 /-- `output_dict[(source, pere.id)] = pere.poids` for every entry recorded by one forward pass -/
 def record (tb : Table W) (s : Nat) (out : List (Nat × W)) : Table W :=
@@ -132,10 +131,10 @@ def allShortestDistances [OfNat W 0] (net : Net W) (order : List Nat) (cut : Opt
 /-- `prepare(cut)`: `DISTANCES` (created empty when `None`) is filled by `all_shortest_distances` -/
 def prepare [OfNat W 0] (net : Net W) (order : List Nat) (cut : Option W) (distances : Option (Table W)) :
     Table W :=
-  allShortestDistances net order cut (distances.getD [])
+  allShortestDistances net order cut (distances.getD Table.empty)
 
 /-- `prepared_shortest_distance(source, target)`; `none` is rendered `1e300` -/
-def preparedShortestDistance (tb : Table W) (s t : Nat) : Option W := tb.get? (s, t)
+def preparedShortestDistance (tb : Table W) (s t : Nat) : Option W := tb (s, t)
 
 /-! ### `run_routing_backward` (as it is after fix 9d0d428) and `shortest_path` -/
 
